@@ -93,6 +93,11 @@ def progRunFI (cfg : Cfg α) (p : ProgFI α) (path : List Nat) : RunFn α := fun
     | some nv => algoRebalance cfg w path p.ws none (some nv)
   else pure w
 
+/-- `CapitalFlow(amount)` at the head of a stack: `target.adjust(amount)` (a flow, marks the tree stale) on every call of `run()`,
+    whatever the scheduler behind it answers -/
+def withFlow (amount : α) (f : List Nat → RunFn α) : List Nat → RunFn α := fun path d w =>
+  (opAdjust w path amount true true).bind (f path d)
+
 /-! ### trees of arbitrary per-strategy run functions, and nested backtests over them -/
 
 inductive GTree (α : Type) where
